@@ -274,7 +274,7 @@ Proof.
   - destruct (h_data f o s) as [[e h'] s'] eqn:Eh.
     destruct (h_data_ho _ _ _ _ _ Hok Eh) as (Hn & Hb).
     destruct h'; inversion H; subst; (split; [exact Hn|]); first [congruence | intros _; apply Hb; discriminate].
-  - inversion H; subst. apply K; [reflexivity|exact Hok].
+  - destruct (negb (esmtp s)); inversion H; subst; (apply K; [reflexivity|exact Hok]).
   - destruct (authed s || negb (o_authperm o)); [inversion H; subst; apply K; [reflexivity|exact Hok]|].
     destruct (o_auth o (skipn 5 l)); inversion H; subst; first [apply K; [reflexivity|exact Hok] | apply KX; reflexivity].
   - inversion H; subst. apply K; [reflexivity|exact Hok].
